@@ -292,11 +292,17 @@ def replay_f(rec):
     fast = fns()["fast"]
     z = np.array([[XC.unit(a)[2], XC.unit(b)[2]] for a, b in rec["arcs"]], dtype=float)
     try:
-        ret = np.atleast_1d(np.asarray(fast(lat_deg_of(rec["cz"]), z, len(rec["arcs"])))).astype(int).ravel().tolist()
+        ret = [_small(x) for x in np.atleast_1d(np.asarray(fast(lat_deg_of(rec["cz"]), z, len(rec["arcs"])))).ravel()]
         err = 0
     except Exception:  # noqa
         ret, err = [], 1
     return {"kind": "F", "id": rec["id"], "cz": rec["cz"], "arcs": rec["arcs"], "ret": ret, "err": err}
+
+
+def _small(x):
+    """indices as JSON-safe integers: anything absurd (a fill value that leaked out) becomes -7, which no spec set contains"""
+    x = int(x)
+    return x if abs(x) < 2 ** 30 else -7
 
 
 def replay_g(rec):
@@ -322,16 +328,16 @@ def replay_g(rec):
         ep, fs, cs = [], [], []
         try:
             e = np.atleast_1d(np.asarray(g.get_edges_at_constant_latitude(lat))).astype(int).ravel()
-            ep = [[int(en[k][0]), int(en[k][1])] for k in e]
+            ep = [[_small(en[k][0]), _small(en[k][1])] for k in e]
         except Exception:  # noqa
             flags[0] = 1
         try:
-            fs = [int(x) for x in np.atleast_1d(np.asarray(g.get_faces_at_constant_latitude(lat))).ravel()]
+            fs = [_small(x) for x in np.atleast_1d(np.asarray(g.get_faces_at_constant_latitude(lat))).ravel()]
         except Exception:  # noqa
             flags[1] = 1
         try:
             sub, idx = g.cross_section.constant_latitude(lat, return_face_indices=True)
-            cs = [int(x) for x in np.atleast_1d(np.asarray(idx)).ravel()]
+            cs = [_small(x) for x in np.atleast_1d(np.asarray(idx)).ravel()]
             flags[3] = int(sub.n_face)
         except Exception:  # noqa
             flags[2] = 1
